@@ -388,14 +388,8 @@ static void p0_run(uint64_t idx, vh_rng_t * rng) {
     flush_counts();
 }
 
-/* phase 1: rich alphabet (up to 10 letters), length 5 (quick) / 6 (thorough; ASan one less); case = (heap, capacity, 1 prefix letter) */
-static int p1_len(int thorough) {
-#if VH_ASAN
-    return thorough ? 5 : 4;
-#else
-    return thorough ? 6 : 5;
-#endif
-}
+/* phase 1: rich alphabet (up to 10 letters), length 5 (quick) / 6 (thorough); case = (heap, capacity, 1 prefix letter) */
+static int p1_len(int thorough) { return thorough ? 6 : 5; }
 static uint64_t p1_count(int thorough) { (void) thorough; return (uint64_t) (H_MAX - H_MIN + 1) * N_MAX * 10; }
 static void p1_run(uint64_t idx, vh_rng_t * rng) {
     int prefix[1]; uint64_t t = idx; size_t H; int N;
@@ -411,9 +405,9 @@ static void p1_run(uint64_t idx, vh_rng_t * rng) {
 /* ---- phase 2: random long histories on heaps up to 600 bytes -------------------------------------------------- */
 static uint64_t p2_count(int thorough) {
 #if VH_ASAN
-    return vh_scaled(thorough ? 6000 : 800);
+    return vh_scaled(thorough ? 10000 : 2000);
 #else
-    return vh_scaled(thorough ? 30000 : 4000);
+    return vh_scaled(thorough ? 50000 : 8000);
 #endif
 }
 static void p2_run(uint64_t idx, vh_rng_t * rng) {
